@@ -355,11 +355,11 @@ func (d DB) NewID(c context.Context, t vocab.Type) (*url.URL, error) {
 		return nil, err
 	}
 	a.NextID++
-	id := fmt.Sprintf("https://%s/id/%d", LocalHost, a.NextID)
+	id := fmt.Sprintf("%s/id/%d", a.LocalPrefix(), a.NextID)
 	if r := reqOf(c); r != nil {
 		// ids are named after the request, so that they do not depend on the interleaving
 		r.IDs++
-		id = fmt.Sprintf("https://%s/id/r%d-%d", LocalHost, r.ID, r.IDs)
+		id = fmt.Sprintf("%s/id/r%d-%d", a.LocalPrefix(), r.ID, r.IDs)
 	}
 	a.note(idx, c, id)
 	return U(id), nil
